@@ -1,4 +1,5 @@
 import RawPanelVerif.Lemmas.PixLemmas
+import RawPanelVerif.Lemmas.PixGray
 import RawPanelVerif.Spec.PixSpec
 /-!
 # C17 — pixel-format conversions agree with each other and with the mono bitmap
@@ -12,9 +13,22 @@ included), all bit patterns, all data lengths and all target canvas sizes; nothi
 (1) `sliceRGB_size`, `sliceRGB_pixel`, `sliceGray_size` (all widths), `sliceGray_pixel` (even widths), `export_holds`
 (2) `sixbit_table` (64 codes by `decide`), `sixbit_closed_form`, `sixbit_to_565` (every code incl. the don't-care bits)
 (3) `mono_image_roundtrip`, `roundtrip_holds`
-(4) `expansion_mono`, `expansion_rgb`, `expansion_gray`, `routines_agree`, `rwp_centering`, `gfx_holds`,
-    `short_data_no_panic`
+(4) `expansion_mono`, `expansion_rgb`, `expansion_gray`, `routines_agree`, `rwp_centering`, `rwp_uncovered_black` (the rest
+    of the target canvas is black: with `rwp_centering` the whole output of `RwpImgToImage` is determined), `gfx_holds`,
+    `short_data_no_panic` (index panics: never; allocation panics: never when `4·W·H` fits an `int`),
+    `huge_size_panics_counterexample`
+Also: `sliceGray_content` (every byte of the grey export for **every** width, odd ones included), `export_of_long`
+(`CreateFromBytes` with a slice longer than `⌈w/8⌉·h`: the C16 constructor, well-formed, exports unaffected).
 `short_mono_png_black_counterexample`: the defect of the pinned tree (repaired by `fix-C17-short-mono.patch`).
+
+**Observations outside the domain** (the property quantifies over "declared sizes up to a few hundred pixels"; `HWCGfx.W/H`
+are `uint32` taken from the message unchecked; reproduced on the unchanged library with a state of one data byte):
+* `W = H = 2^31`: `ConvertGfxStateToPngBytes` panics in all three formats (mono: `makeslice: len out of range` in `NewImage`;
+  RGB / grey: `image: NewRGBA Rectangle has huge or negative dimensions`) — `huge_size_panics_counterexample`;
+* `W = H = 65536`, RGB: `image.NewRGBA` asks for 16 GiB (`fatal error: out of memory` under a 4 GB limit, not recoverable);
+  20000 × 20000 with one data byte: 1.5 GiB resident, 6.7 s;
+* `RwpImgToImage` with `W = H = 2^31` into an 8 × 8 target allocates nothing but loops `W·H = 2^62` times.
+Such sizes are kept out of the generator.
 -/
 namespace RawPanelVerif.C17
 open RawPanelVerif RawPanelVerif.Mono RawPanelVerif.Pix
@@ -69,6 +83,37 @@ theorem sliceGray_pixel (c : Canvas) (hwf : c.WF) (pcol bcol : Nat) (hev : c.geo
   by_cases hodd : (y * c.geo.W + x) % 2 = 0
   · rw [if_pos hodd, if_pos hodd, BitVec.toNat_ushiftRight, Nat.shiftRight_eq_div_pow]
   · rw [if_neg hodd, if_neg hodd, BitVec.toNat_and]
+    show _ = _ &&& 15
+    rw [and_15]
+
+/-- **4-bit-grey export, every width — odd ones included**: byte `p` of the output belongs to row `p / ⌈w/2⌉` and holds the
+pair of stored bits `2j`, `2j+1` (`j = p % ⌈w/2⌉`) of that row: high nibble = top nibble of the luma of the first, low nibble
+of the second.  For odd `w` the second bit of a row's last pair is the padding bit at column `w`, and the pairs beyond the
+`⌊w·h/2⌋` bytes that exist are dropped.  (Even `w`: this is `sliceGray_pixel`.) -/
+theorem sliceGray_content (c : Canvas) (hwf : c.WF) (pcol bcol : Nat) :
+    ∃ out, sliceGray c pcol bcol = some out ∧ out.size = c.geo.W * c.geo.H / 2 ∧
+      ∀ p, p < c.geo.W * c.geo.H / 2 →
+        byteAt out p / 16 =
+          Spec.Pix.luma8 (if getPx c (2 * (p % ((c.geo.W + 1) / 2))) (p / ((c.geo.W + 1) / 2)) then pcol else bcol) / 16 ∧
+        byteAt out p % 16 =
+          Spec.Pix.luma8 (if getPx c (2 * (p % ((c.geo.W + 1) / 2)) + 1) (p / ((c.geo.W + 1) / 2)) then pcol else bcol) / 16 := by
+  obtain ⟨out, h1, h2, h3⟩ := sliceGray_bytes c hwf pcol bcol
+  refine ⟨out, h1, h2, ?_⟩
+  intro p hp
+  have hb := h3 p hp
+  have hv : ∀ x y, (gv c (rgb16ToGray pcol) (rgb16ToGray bcol) x y >>> 4).toNat =
+      Spec.Pix.luma8 (if getPx c x y then pcol else bcol) / 16 := by
+    intro x y
+    rw [BitVec.toNat_ushiftRight, Nat.shiftRight_eq_div_pow]
+    unfold gv
+    cases getPx c x y <;> simp only [if_true, Bool.false_eq_true, if_false, rgb16ToGray_eq]
+  have hget : out.getD p 0#8 = pairByte c (rgb16ToGray pcol) (rgb16ToGray bcol) (2 * (p % ((c.geo.W + 1) / 2))) (p / ((c.geo.W + 1) / 2)) := by
+    rw [Array.getD_eq_getD_getElem?, hb]; rfl
+  unfold byteAt
+  rw [hget]
+  constructor
+  · rw [← hv, ← pairByte_hi, BitVec.toNat_ushiftRight, Nat.shiftRight_eq_div_pow]
+  · rw [← hv, ← pairByte_lo, BitVec.toNat_and]
     show _ = _ &&& 15
     rw [and_15]
 
@@ -298,13 +343,55 @@ theorem gfx_holds (fmt : Fmt) (W H : Nat) (data : Array Byte) (tw th : Nat) :
   · have : Spec.Pix.covered fmt.code W data.size p.1 p.2 = false := by simpa using hc
     rw [this]; rfl
 
-/-- **no panic**: no modelled routine ever indexes outside a slice (`none` is the model's index-out-of-range panic) —
-the graphics-state routines for every format, declared size, **data length** (shorter, equal, longer) and target canvas;
-the exports, `ConvertToImage` and the round trip for every well-formed mono image of any size (odd widths included);
-`CreateFromImage` for every image -/
-theorem short_data_no_panic (fmt : Fmt) (W H : Nat) (data : Array Byte) (tw th : Nat) :
-    (imgFromRGBBytes W H data).isSome ∧ (imgFromGrayBytes W H data).isSome ∧
-    (rwpImgToImage fmt W H data tw th).isSome ∧ (gfxToPngImage fmt W H data).isSome ∧
+/-- `RwpImgToImage`, the rest of the target canvas: every pixel that no *covered* pixel of the image lands on — the canvas
+around the image and the places of pixels beyond the end of the data — is black.  With `rwp_centering` this determines
+the whole output image. -/
+theorem rwp_uncovered_black (fmt : Fmt) (W H : Nat) (data : Array Byte) (tw th : Nat) :
+    ∃ img, rwpImgToImage fmt W H data tw th = some img ∧
+      ∀ (X Y : Int), 0 ≤ X → X < tw → 0 ≤ Y → Y < th →
+        (¬ ∃ x y : Nat, x < W ∧ y < H ∧ Spec.Pix.covered fmt.code W data.size x y = true ∧
+          (x : Int) + ((tw : Int) - W).tdiv 2 = X ∧ (y : Int) + ((th : Int) - H).tdiv 2 = Y) →
+        img.at X Y = black := by
+  obtain ⟨img, h1, h2⟩ := rwpImgToImage_frame fmt W H data tw th
+  refine ⟨img, h1, ?_⟩
+  intro X Y a1 a2 a3 a4 hn
+  refine h2 X Y a1 a2 a3 a4 ?_
+  rintro ⟨x, y, hx, hy, hc, e1, e2⟩
+  exact hn ⟨x, y, hx, hy, (covered_iff fmt W data x y).2 hc, e1, e2⟩
+
+/-- **exports of a buffer longer than the canvas needs**: `CreateFromBytes(w, h, bytes)` with `len(bytes) ≥ ⌈w/8⌉·h` installs the
+caller's slice itself (`Mono.createFromBytesOn`, the constructor of the C16 command language); the canvas is well-formed
+in C16's sense and both exports satisfy clause (1) — the surplus bytes are never read. -/
+theorem export_of_long (w h : Nat) (bytes : Array Byte) (hlen : ((w + 7) / 8) * h ≤ bytes.size)
+    (pcol bcol : Nat) (hp : pcol < 65536) (hb : bcol < 65536) :
+    (createFromBytes w h bytes).1 = createFromBytesOn false w h bytes ∧
+    (createFromBytes w h bytes).1.bytes = bytes ∧ (createFromBytes w h bytes).1.WF ∧
+    ∃ rgb gray, sliceRGB (createFromBytes w h bytes).1 pcol bcol = some rgb ∧
+      sliceGray (createFromBytes w h bytes).1 pcol bcol = some gray ∧
+      Spec.Pix.checkExport w h (getPx (createFromBytes w h bytes).1) pcol bcol rgb.size (byteAt rgb) gray.size (byteAt gray) = none := by
+  have hnot : ¬ ((newCanvas w h).geo.wib * h > bytes.size) := by simp only [newCanvas]; omega
+  have e1 : (createFromBytes w h bytes).1 = { newCanvas w h with bytes := bytes } := by
+    unfold createFromBytes; simp only []; rw [if_neg hnot]
+  have e0 : (createFromBytes w h bytes).1 = createFromBytesOn false w h bytes := by
+    rw [e1]; unfold createFromBytesOn; simp only []; rw [if_neg hnot]; rfl
+  have hwf : (createFromBytes w h bytes).1.WF := by
+    rw [e1]; unfold Canvas.WF newCanvas; simp only []; omega
+  refine ⟨e0, by rw [e1], hwf, ?_⟩
+  have := export_holds (createFromBytes w h bytes).1 hwf pcol bcol hp hb
+  have gw : (createFromBytes w h bytes).1.geo.W = w := by rw [e1]; rfl
+  have gh : (createFromBytes w h bytes).1.geo.H = h := by rw [e1]; rfl
+  rw [gw, gh] at this
+  exact this
+
+/-- **no panic**: no modelled routine ever indexes outside a slice or fails an allocation (`none` is the model's panic) —
+the graphics-state routines for every format, **data length** (shorter, equal, longer) and every declared / target size
+whose `image.NewRGBA` buffer length `4·w·h` fits an `int` (and, for the mono PNG path, whose `⌈W/8⌉·H`-byte slice can be
+made); the exports, `ConvertToImage` and the round trip for every well-formed mono image of any size (odd widths included);
+`CreateFromImage` for every image.  Without the size guard the statement is false: `huge_size_panics_counterexample`. -/
+theorem short_data_no_panic (fmt : Fmt) (W H : Nat) (data : Array Byte) (tw th : Nat)
+    (hWH : rgbaAllocOk W H = true) (hmono : sliceAllocOk (((W + 7) / 8) * H) = true) (ht : rgbaAllocOk tw th = true) :
+    (imgFromRGBBytes? W H data).isSome ∧ (imgFromGrayBytes? W H data).isSome ∧
+    (rwpImgToImage? fmt W H data tw th).isSome ∧ (gfxToPngImage? fmt W H data).isSome ∧
     (∀ src : Img, (fromImage src).isSome) ∧
     (∀ (c : Canvas), c.WF → ∀ (pcol bcol : Nat) (invert : Bool),
       (sliceRGB c pcol bcol).isSome ∧ (sliceGray c pcol bcol).isSome ∧ (toImage c invert).isSome) := by
@@ -312,7 +399,12 @@ theorem short_data_no_panic (fmt : Fmt) (W H : Nat) (data : Array Byte) (tw th :
   obtain ⟨_, h2, _⟩ := imgFromGrayBytes_spec W H data
   obtain ⟨_, h3, _⟩ := rwpImgToImage_spec fmt W H data tw th
   obtain ⟨_, h4, _⟩ := gfxToPngImage_spec fmt W H data
-  refine ⟨by rw [h1]; rfl, by rw [h2]; rfl, by rw [h3]; rfl, by rw [h4]; rfl, ?_, ?_⟩
+  refine ⟨by unfold imgFromRGBBytes?; rw [if_pos hWH, h1]; rfl, by unfold imgFromGrayBytes?; rw [if_pos hWH, h2]; rfl,
+    by unfold rwpImgToImage?; rw [if_pos ht, h3]; rfl, ?_, ?_, ?_⟩
+  · cases fmt with
+    | mono => unfold gfxToPngImage?; simp only [hmono, hWH, Bool.and_self, if_true]; rw [h4]; rfl
+    | rgb => unfold gfxToPngImage? imgFromRGBBytes?; simp only []; rw [if_pos hWH, h1]; rfl
+    | gray => unfold gfxToPngImage? imgFromGrayBytes?; simp only []; rw [if_pos hWH, h2]; rfl
   · intro src
     obtain ⟨_, h, _⟩ := fromImage_spec src
     rw [h]; rfl
@@ -321,6 +413,20 @@ theorem short_data_no_panic (fmt : Fmt) (W H : Nat) (data : Array Byte) (tw th :
     obtain ⟨_, g2, _⟩ := sliceGray_total c hwf pcol bcol
     obtain ⟨_, g3, _⟩ := toImage_spec c hwf.1 (by have := hwf.2; omega) invert
     exact ⟨by rw [g1]; rfl, by rw [g2]; rfl, by rw [g3]; rfl⟩
+
+/-- the guard of `short_data_no_panic` is needed: a state message declaring 2^31 × 2^31 pixels with one byte of data makes
+`ConvertGfxStateToPngBytes` panic in all three formats (mono: `makeslice: len out of range` in `NewImage`; RGB / grey:
+`image: NewRGBA Rectangle has huge or negative dimensions`), observed on the real routine; sizes "up to a few hundred
+pixels" (the property's domain) are far inside the guard -/
+theorem huge_size_panics_counterexample :
+    gfxToPngImage? .mono 2147483648 2147483648 #[0xFF#8] = none ∧
+    gfxToPngImage? .rgb 2147483648 2147483648 #[0xFF#8] = none ∧
+    gfxToPngImage? .gray 2147483648 2147483648 #[0xFF#8] = none ∧
+    rgbaAllocOk 1000 1000 = true ∧ sliceAllocOk (((1000 + 7) / 8) * 1000) = true := by
+  refine ⟨?_, ?_, ?_, by decide, by decide⟩
+  · unfold gfxToPngImage?; simp only []; rw [if_neg (by decide)]
+  · unfold gfxToPngImage? imgFromRGBBytes?; simp only []; rw [if_neg (by decide)]
+  · unfold gfxToPngImage? imgFromGrayBytes?; simp only []; rw [if_neg (by decide)]
 
 /-! ## non-vacuity and the defect of the pinned tree -/
 
